@@ -149,5 +149,5 @@ meta("C17",
 meta("C06",
      rule="GFA1 graphs whose segments have a length and whose overlaps are specified, asymmetric CIGARs (I/D/P), every orientation pair, self-links, containments at offset 0 / inner / flush right, linear, circular and single-segment paths traversing links in either direction, named and unnamed edges, tags; GFA2 graphs from G1 with CIGAR or '*' alignments; whole-graph conversion in both directions (string and Gfa), line-level refusals, there-and-back; edges are compared in the E-line semantic normal form (the four spellings under sid swap => I<->D and orientation flip => reversed operations) computed by an independent model from CIGAR reference/query lengths and segment lengths; converted text must be VALID for the target grammar and accepted by Gfa(vlevel=3).validate(); bin/gfapy-convert sampled; non-trivial = graph with an alignment that is not its own swap/reverse Several P lines per document, also the same walk the other way round, lines in any arrival order. 8%: links/containments whose overlaps use GFA1-only operations (= X N S H): refusal, omission or valid GFA2, never invalid text (Gfa, line level, CLI); circular paths of one segment over a self-link.",
      budget={"quick": 25, "thorough": 360},
-     min_counts={"quick": {"gfa1_only_alignment_conversions": 2000, "no_counterpart_conversions": 150, "conversions_1to2": 3000, "conversions_2to1": 1200, "edges_compared": 8000, "round_trips": 4000, "paths_compared": 500, "line_level_refusals": 500}},
+     min_counts={"quick": {"gfa1_only_alignment_conversions": 2000, "no_counterpart_conversions": 150, "conversions_after_edit": 100, "conversions_1to2": 3000, "conversions_2to1": 1200, "edges_compared": 8000, "round_trips": 4000, "paths_compared": 500, "line_level_refusals": 500}},
      assumptions=["containments whose container orientation is '-' (GFA1 does not say on which strand pos counts), dovetails spanning a whole segment, trace alignments and internal edges are outside the comparison (DESIGN 3.1)"])
